@@ -269,6 +269,13 @@ func c13Eval(t *fw.T, c *fw.Case) {
 			}
 		}
 	}
+	// the same faults in projects that have Path directives and no interaction at all
+	const noMethods = "JSIGHT 0.3\nTYPE @id\n  7\n"
+	vs = append(vs, variant{"no-interactions:property-without-segment", noMethods + "URL /zn1/{q}\n  Path\n    {\n      \"q\": 1,\n      \"nosuchsegment\": 2\n    }\n"})
+	vs = append(vs, variant{"no-interactions:path-in-parameterless-url", noMethods + "URL /zn2\n  Path\n    {\n      \"q\": 1\n    }\n"})
+	vs = append(vs, variant{"no-interactions:declared-twice", noMethods + "URL /zn3/{q}\n  Path\n    {\n      \"q\": 1\n    }\nURL /zn3/{q}/more\n  Path\n    {\n      \"q\": @id\n    }\n"})
+	vs = append(vs, variant{"no-interactions:path-body-not-object", noMethods + "URL /zn4/{q}\n  Path\n    [1]\n"})
+	vs = append(vs, variant{"no-interactions:nested-property", noMethods + "URL /zn5/{q}\n  Path\n    {\n      \"q\": {\"a\": 1}\n    }\n"})
 	for _, v := range vs {
 		dv := run.Single([]byte(v.text))
 		ov := t.Exec(dv)
